@@ -412,6 +412,33 @@ func c07R4(c *Ctx, r *Report) {
 				}
 				continue
 			}
+			// a number allocated only to be used as a stamp and given back at once: on the allocation's success edge every path to the
+			// function's exit passes releaseSequence(that number)
+			if cv, isCall := call.(*ssa.Call); isCall {
+				var seqV ssa.Value
+				for _, e := range resultValues(cv, 0) {
+					seqV = e
+				}
+				ev := errValueOf(cv)
+				_, okE := EdgesOnValue(fn, func(v ssa.Value) bool { return unwrapLoadFree(v) == ev })
+				var rels []ssa.Instruction
+				for _, rc := range c.Calls(fn, false, nameIs("(*db.sequenceAllocator).releaseSequence")) {
+					a := callArgs(rc)
+					if seqV != nil && len(a) > 0 && DependsOn(a[len(a)-1], func(v ssa.Value) bool { return v == seqV }) {
+						rels = append(rels, rc)
+					}
+				}
+				released := len(okE) > 0 && len(rels) > 0
+				for _, e := range okE {
+					if ReachFrom(e.To(), 0, func(in ssa.Instruction) bool { _, isRet := in.(*ssa.Return); return isRet }, NewAvoid().AddInstr(rels...)) != nil {
+						released = false
+					}
+				}
+				if released {
+					r.Pass("C07-R4", fmt.Sprintf("fn=%s allocation released-at-once", top), c.Pos(call.Pos()), "the number is only used as a stamp: on the allocation's success edge every path to the exit releases it")
+					continue
+				}
+			}
 			r.Fail("C07-R4", fmt.Sprintf("fn=%s allocation unaccounted", top), c.Pos(call.Pos()), "new sequence allocation site: every allocated number must be carried by a write or released; no pairing rule covers this site")
 		}
 	}
